@@ -47,6 +47,9 @@ class ExpressionSolver:
 
     def solve(self, expr:Union[str,Expression]):
         self.expr = Expression(expr) if isinstance(expr, str) else expr
+        # Start from empty token buffers (an earlier solve may have failed part-way)
+        self.tokens.left = []
+        self.tokens.right = []
         
         # Tokenize expression
         while self.expr.right:
